@@ -360,6 +360,7 @@ func runC06(c *Ctx) {
 		ruleInferNonNil(c, p, "C06.infer-nonnil")
 		ruleChainComplete(c, p, "C06.chain")
 		ruleStringIndexGuard(c, p, "C06.index-guard")
+		ruleStrLenSource(c, p, "C06.strlen-source")
 		ruleInferCache(c, p, "C06.infer-cache")
 		ruleInferIndex(c, p, "C06.infer-index")
 		ruleSumOverflow(c, p, "C06.sum-overflow")
